@@ -12,6 +12,7 @@ write(update_keys, as_generator) yielding (row, updated, updated_id)):
   normalize_for_engine        : per row, in place, exactly the array / object columns go through the dialect's fixers (in order)
   normalize_schema_for_engine : a deep copy; on sqlite array / object columns are declared string; the input schema is untouched
 """
+from contracts import findings_natives as KF
 from contracts.common import fn_named
 from contracts.common import same_stream, Item, mk_resource, expect_no_raise_or_same, _b
 from contracts.streams import calls, effect_names
@@ -215,6 +216,9 @@ def sym_normalizers(vc):
                 check(it, 'all-other-columns-untouched[%s]' % dialect, z3.ForAll([k], z3.Implies(
                     z3.And(k != z3.StringVal('a'), k != z3.StringVal('o')),
                     z3.And(out.dom[k] == before.dom[k], z3.Implies(before.dom[k], out.val[k] == before.val[k])))))
+                # C20: "rows continue downstream unchanged apart from the optional updated flags": what is prepared for the engine
+                # must not be written into the row the caller handed over (recorded finding F-C20-structured-cells-rewritten)
+                check(it, 'the-row-that-continues-downstream-is-left-as-it-came[%s]' % dialect, same_row(row, before))
                 cover(it, 'iter-reachable[%s]' % dialect)
             it.loops['SQLDumper.normalize_for_engine#L1'] = LoopSpec(at_start=at_start, at_end=at_end)
             try:
@@ -373,4 +377,5 @@ ITEMS = [
     Item('process_resource', sym_process_resource, [('histories', nat_histories)], D + 'to_sql.py::SQLDumper.process_resource'),
     Item('get_output_row', sym_get_output_row, [], D + 'to_sql.py::SQLDumper.get_output_row'),
     Item('normalizers', sym_normalizers, [('strize', nat_strize)], D + 'to_sql.py::SQLDumper.normalize_for_engine'),
+    Item('recorded-findings', None, [('bounded', KF.nat_findings_c20)], 'dataflows/processors/dumpers/to_sql.py::SQLDumper.process_resource'),
 ]
